@@ -8,6 +8,7 @@ import Driver.Params
 import Driver.Ops
 import Driver.Swc
 import Driver.CableDual
+import Driver.SolveJaxley
 open Driver
 
 def handle (line : String) : String :=
@@ -29,6 +30,7 @@ def handle (line : String) : String :=
   | "ops" :: rest => handleOps rest
   | "cabledual" :: rest => handleCableDual rest
   | "swc" :: rest => handleSwc rest
+  | "jsolve" :: rest => handleJSolve rest
   | "ping" :: _ => "pong"
   | _ => "bad-op"
 
